@@ -72,6 +72,18 @@ package chained_bft
 //@   let signs = qc.GetSignsInfo()
 //@   ensures vote_needs_a_valid_member_signature: result == nil ==> len(signs) > 0 && member(qcsAddr(signs[0]), validators) && voteSigValid(s.Crypto.CryptoClient, signs[0], qc.GetProposalId())
 
+// The collector's list for a proposal starts with the one entry of the vote that was
+// checked (CheckVote looks at the first entry only) and grows by one checked entry per vote.
+//@ func Smr.handleReceivedVoteMsg
+//@   property C14
+//@   requires envelope_allocated: msg == nil || (msg.Header <= allocTop() && msg.Data <= allocTop())
+// (What the tree operations it calls require of the tree is C15's business and is assumed here.)
+//@   trustcallees
+//@   local voteQC *QuorumCert
+//@   at saftyRulesInterface.CheckVote assert the_vote_is_checked_first: ifacePtr($0) == voteQC
+//@   at sync.Map.LoadOrStore assert first_vote_keeps_only_its_checked_entry: recv == s.qcVoteMsgs && unboxLen($1) == 1
+//@   nocall Smr.LoadVotes votes_enter_only_checked
+
 // ======================= C15: pending-proposal tree =======================
 //@ macro idOf(n) = n.In.GetProposalId()
 //@ macro parentIdOf(n) = n.In.GetParentProposalId()
